@@ -423,6 +423,9 @@ struct TcpEngine : Engine {
         w.net.tap_fifo = true; w.net.tap_jit = 0; w.net.tap_loss = cfg.chance(0.7) ? cfg.unit() * 0.6 : 0; w.net.tap_dup = cfg.chance(0.3) ? cfg.unit() * 0.2 : 0;
         p.cfg.set("loss", fmt("%.3f", w.net.loss)).set("dup", fmt("%.3f", w.net.dup)).set("jit", w.net.jit).set("ackloss", fmt("%.3f", w.net.tap_loss));
         // the same tracker as the application usually meets it: embedded in a Flow (optionally one that was told to ignore data packets)
+        // how SACK use is switched on: 0 = at construction, 1 = constructed without and enabled through use_sack() before the first packet,
+        // 2 = enabled only after a third of the history (earlier blocks are then unknown to the tracker: the model starts recording there too), 3 = never
+        { Rng sm = root.fork("sackmode"); p.cfg.set("sackmode", sm.chance(0.3) ? (int64_t)sm.range(1, 3) : 0); }
         { Rng fr = root.fork("flowtrk"); p.cfg.set("nblocks", c.tsopt ? 3 : 4).set("embedded", c.handshake && fr.chance(0.5) ? (int64_t)fr.range(1, 2) : 0); }
         ConnSim sim(w, c, root.fork("conn").next()); sim.start(); w.q.run(INT64_MAX, 400000);
         finish_tap(w, true);
@@ -442,8 +445,9 @@ struct TcpEngine : Engine {
         // tracker[d] follows the ACKs sent by side d, which acknowledge data[1-d] (base isn[1-d]+1)
         struct Model { uint32_t base; uint32_t A; std::vector<bool> S; bool started; } m[2];
         std::unique_ptr<Tins::TCPIP::AckTracker> trk[2];
-        const size_t MARGIN = 64;
-        for (int d = 0; d < 2; ++d) { m[d].base = c.isn[1 - d] + 1; m[d].A = m[d].base; m[d].S.assign(c.data[1 - d].size() + MARGIN, false); m[d].started = false; trk[d].reset(new Tins::TCPIP::AckTracker(m[d].base, true)); }
+        const size_t MARGIN = 64; const int sackmode = (int)p.cfg.num("sackmode", 0);
+        for (int d = 0; d < 2; ++d) { m[d].base = c.isn[1 - d] + 1; m[d].A = m[d].base; m[d].S.assign(c.data[1 - d].size() + MARGIN, false); m[d].started = false; trk[d].reset(new Tins::TCPIP::AckTracker(m[d].base, sackmode == 0)); if (sackmode == 1) trk[d]->use_sack(); }
+        bool sack_on = sackmode <= 1; const size_t sack_from = sackmode == 2 ? p.steps.size() / 3 : 0;
         uint64_t sig = 0xC19; bool saw_sack = false, edge = false; int idx = -1; int64_t last_t = 0;
         // embedded form: one Flow per direction with ACK tracking on, fed every frame its side sends (handshake included). Once the flow is
         // established - its side's SYN / SYN-ACK, then a plain ACK - the embedded tracker must agree with the stand-alone one.
@@ -463,6 +467,7 @@ struct TcpEngine : Engine {
                 if (est[dir] == 0) est[dir] = (syn && !finrst && ((dir == 0) == !(d.tcp.flags & TH_ACK))) ? 1 : -1;
                 else if (est[dir] == 1 && !syn) est[dir] = ((d.tcp.flags & TH_ACK) && !finrst) ? 2 : -1;
             }
+            if (sackmode == 2 && !sack_on && (size_t)idx >= sack_from) { trk[0]->use_sack(); trk[1]->use_sack(); sack_on = true; st.inc("probe.sack_enabled_in_mid_history"); }
             if (!(d.tcp.flags & TH_ACK) || (d.tcp.flags & (TH_SYN | TH_RST))) continue;      // handshake packets do not belong to the ACK history
             Model& M = m[dir];
             // ---- model B4
@@ -472,7 +477,7 @@ struct TcpEngine : Engine {
             for (auto& b : d.sack) {
                 int64_t lo = seq_diff(b.first, M.base), hi = seq_diff(b.second, M.base);
                 if (seq_diff(b.first, d.tcp.ack) <= 0) return Verdict::bad("machinery:premise", "reference receiver emitted a SACK block not strictly above its ACK", idx);
-                for (int64_t i = std::max<int64_t>(lo, 0); i < hi && i < (int64_t)L; ++i) M.S[(size_t)i] = true;
+                if (sack_on) for (int64_t i = std::max<int64_t>(lo, 0); i < hi && i < (int64_t)L; ++i) M.S[(size_t)i] = true;
                 saw_sack = true;
             }
             int64_t aoff = seq_diff(M.A, M.base);
@@ -502,7 +507,7 @@ struct TcpEngine : Engine {
                 for (uint64_t x = lo; x <= hi; ++x) { uint32_t off = (uint32_t)x - M.base; if (off >= L) return Verdict::bad("ack:sacked-set", fmt("tracker holds byte %llu outside anything the receiver SACKed", (unsigned long long)x), idx); T[off] = true; }
             }
             for (size_t i = 0; i < L; ++i) if (T[i] != M.S[i]) return Verdict::bad("ack:sacked-set", fmt("byte at stream offset %zu: tracker %s, model %s (A at offset %lld)", i, T[i] ? "SACKed" : "not SACKed", M.S[i] ? "SACKed" : "not SACKed", (long long)aoff), idx);
-            if (embedded && est[dir] == 2) {
+            if (embedded && est[dir] == 2 && sackmode == 0) {
                 const Tins::TCPIP::AckTracker& et = efl[dir]->ack_tracker(); st.inc(embedded == 2 ? "chk.embedded_tracker_ignoring_flow" : "chk.embedded_tracker");
                 if (et.ack_number() != trk[dir]->ack_number()) return Verdict::bad("ack:embedded-ack-number", fmt("tracker inside a Flow%s: ack_number()=%u, stand-alone tracker and model %u", embedded == 2 ? " that ignores data packets" : "", et.ack_number(), M.A), idx);
                 if (!(et.acked_intervals() == trk[dir]->acked_intervals())) return Verdict::bad("ack:embedded-sacked-set", fmt("tracker inside a Flow%s holds %zu SACKed intervals, stand-alone tracker %zu (or different ones)", embedded == 2 ? " that ignores data packets" : "", (size_t)et.acked_intervals().iterative_size(), (size_t)trk[dir]->acked_intervals().iterative_size()), idx);
